@@ -542,8 +542,16 @@ def unfinished_prefix_clip(ctx, rule):
                 for p in S.walk(e):
                     if isinstance(p, tuple) and p and p[0] == "phi":
                         alts = U.flatten_phi(p)
-                        if len(alts) == 2 and any(U.expr_calls(a, "Index::index") and U.expr_calls(a, "cmp::min") for a in alts):
+                        if len(alts) == 2 and any(U.expr_calls(a, "Index::index") and (U.expr_calls(a, "cmp::min") or U.expr_calls(a, "Ord::min"))
+                                                  for a in alts):
                             ok = True
+                    # the same clip with the branch inside the range: &rchars[.. if fin { len } else { min(len, qlen + 1) }]
+                    if isinstance(p, tuple) and p and p[0] == "call" and p[1].endswith("Index::index") and len(p[2]) == 2:
+                        for q in S.walk(p[2][1]):
+                            if isinstance(q, tuple) and q and q[0] == "phi":
+                                alts = U.flatten_phi(q)
+                                if len(alts) == 2 and sum(1 for a in alts if U.expr_calls(a, "cmp::min") or U.expr_calls(a, "Ord::min")) == 1:
+                                    ok = True
             if ok:
                 ctx.ok(rule, key, where(g.body, g.bi), "the Jaccard gate compares the query with a record prefix of at most "
                        "query length + 1 on the unfinished branch", nontrivial=True)
@@ -719,6 +727,35 @@ def every_posting_counted(ctx, rule):
         if h != ih and ih is not None and cfg.in_natural_loop(ih, h):
             oh = h
     outer_next = [x for x, t in b.calls() if (t.get("cn") or "").endswith("Iterator::next") and cfg.inner_header(x) == oh] if oh is not None else []
+    if ih is not None and oh is None and inner_next:
+        # one loop over a flattened chain: grams.iter().filter_map(|g| dict.get(g)).flatten()  /  .flat_map(|g| dict.get(g)..)
+        t_ = b.blocks[inner_next[0]]["term"]
+        src, stages = U.chain(sy.operand(t_["args"][0]))
+        names = [x[0] for x in stages]
+        lookups = [x for x in stages if x[0] in ("filter_map", "flat_map")]
+        plain = all(n_ in ("iter", "into_iter", "filter_map", "flat_map", "flatten", "copied", "cloned", "by_ref") for n_ in names)
+        good_lookup = False
+        if len(lookups) == 1 and plain and ("flatten" in names or lookups[0][0] == "flat_map"):
+            lb = U.closure_body(ctx, lookups[0][1][0]) if lookups[0][1] else None
+            if lb is not None:
+                r_ = S.strip_refs(ctx.sym(lb).local(0))
+                while r_[0] == "call" and r_[1].endswith(("IntoIterator::into_iter", "Option::into_iter", "Option::unwrap_or_default", "Iterator::flatten")) and r_[2]:
+                    r_ = S.strip_refs(r_[2][0])
+                good_lookup = r_[0] == "call" and r_[1].endswith(("HashMap::get", "HashMap::get_mut")) and len(r_[2]) == 2 and \
+                    S.strip_refs(r_[2][1]) == ("arg", 2)
+        tg = t_.get("target")
+        sw = b.blocks[tg]["term"] if tg is not None else None
+        s_in = ([x for v, x in sw["targets"] if v == 1] or [None])[0] if sw is not None and sw["k"] == "switch" else None
+        skip = s_in is None or (s_in != inc and cfg.path_exists(s_in, inner_next[0], avoid=[inc]))
+        if good_lookup and not skip and cfg.every_path_passes(0, [ih]) is not None:
+            ctx.ok(rule, key, where(b, inc), "every posting of every query gram increments its counter (one loop over the flattened "
+                   "dictionary lookups of all grams)", nontrivial=True)
+            return
+        ctx.fail(rule, key, where(b, inc), "not every posting of every query gram is counted: %s" %
+                 ("a posting can be passed over without incrementing its counter" if good_lookup else
+                  "the flattened chain %s is not `grams -> dict.get(gram) -> postings`" % names),
+                 {"witness": "a record all of whose grams are frequent gets count 0 and is never a candidate"})
+        return
     if ih is None or oh is None or not inner_next or not outer_next:
         ctx.fail(rule, key, where(b, inc), "the counting loops (grams x postings) are not recognised (fail closed)")
         return
